@@ -78,7 +78,7 @@ def i_LD(i_, fmap):
     dst, src = i_.operands
     fmap[pc] = fmap[pc] + i_.length
     fmap[dst] = fmap(src)
-    if (src == i) or (src == r):
+    if src.size == i.size and ((src == i) or (src == r)):
         fmap[sf] = tst(fmap[src] < 0, bit1, bit0)
         fmap[zf] = tst(fmap[src] == 0, bit1, bit0)
         fmap[hf] = bit0
